@@ -15,7 +15,8 @@ def sh(cmd, cwd=None, timeout=3000):
 
 
 def main():
-    only = sys.argv[1:]
+    only = [a for a in sys.argv[1:] if not a.startswith("--")]
+    checks = next((a.split("=", 1)[1].replace(",", " ") for a in sys.argv[1:] if a.startswith("--checks=")), None)   # limit the checks run (meta.json is then merged, not replaced)
     assert sh("git -C /repo status --porcelain")[1].strip() == "", "/repo is not clean"
     DST.mkdir(exist_ok=True)
     # import new candidates
@@ -36,7 +37,7 @@ def main():
             print(d.name, "APPLY FAILED", out[-200:])
             continue
         try:
-            rc, out = sh("sh tools/runall.sh quick", cwd="/verif")
+            rc, out = sh(("VERIF_ONLY='%s' " % checks if checks else "") + "sh tools/runall.sh quick", cwd="/verif")
             res = {}
             for line in out.splitlines():
                 parts = line.split()
@@ -45,6 +46,12 @@ def main():
         finally:
             sh("git -C /repo checkout -- .")
         alarms = {p: r for p, r in res.items() if r["exit"] != 0}
+        if checks and (d / "meta.json").exists():
+            old = json.loads((d / "meta.json").read_text())
+            merged = {p: r for p, r in (old.get("alarms") or {}).items() if p not in res}
+            merged.update(alarms)
+            alarms = merged
+            res = {**{p: None for p in old.get("checks_run", [])}, **res}
         (d / "meta.json").write_text(json.dumps({"id": d.name, "files": sh(f"grep '^+++ ' {d/'patch.diff'}")[1].split(), "checks_run": sorted(res), "alarms": alarms}, indent=1))
         print(d.name, "alarms:", json.dumps(alarms)[:600] if alarms else "none", flush=True)
 
